@@ -709,7 +709,7 @@ func confirmDeath(worker, prop, tier string, seed uint64, idx int, env []string,
 	}
 	var lastErr string
 	for i := 0; i < 2; i++ {
-		cmd := exec.Command(worker, "-prop", prop, "-tier", tier, "-base", fmt.Sprint(seed), "-case", fmt.Sprint(idx))
+		cmd := exec.Command(worker, "-prop", prop, "-tier", tier, "-base", fmt.Sprint(seed), "-case", fmt.Sprint(idx), "-stall-s", fmt.Sprint(stallS))
 		ownGroup(cmd)
 		cmd.Env = env
 		var ob, eb bytes.Buffer
@@ -721,7 +721,7 @@ func confirmDeath(worker, prop, tier string, seed uint64, idx int, env []string,
 		hung := false
 		select {
 		case err = <-done:
-		case <-time.After(time.Duration(stallS+5) * time.Second):
+		case <-time.After(time.Duration(20*stallS+60) * time.Second):
 			killGroup(cmd)
 			<-done
 			hung = true
@@ -737,6 +737,11 @@ func confirmDeath(worker, prop, tier string, seed uint64, idx int, env []string,
 		if ee, ok := err.(*exec.ExitError); ok && ee.ExitCode() == 1 {
 			// an ordinary violation, the worker will have reported it
 			return nil
+		}
+		if ee, ok := err.(*exec.ExitError); ok && ee.ExitCode() == 3 {
+			// the isolated worker's own watchdog: no progress for stallS seconds
+			lastErr = "hang"
+			continue
 		}
 		lastErr = headline(eb.String())
 		stderr = headTail(eb.String(), 4000)
@@ -759,7 +764,9 @@ func confirmDeath(worker, prop, tier string, seed uint64, idx int, env []string,
 
 // confirmHang replays one case alone under the same watchdog.
 func confirmHang(worker, prop, tier string, seed uint64, idx int, env []string, stallS float64) bool {
-	cmd := exec.Command(worker, "-prop", prop, "-tier", tier, "-base", fmt.Sprint(seed), "-case", fmt.Sprint(idx))
+	// the isolated worker applies the same watchdog (no sign of progress for
+	// stallS seconds: exit 3); a case that is merely long reports progress
+	cmd := exec.Command(worker, "-prop", prop, "-tier", tier, "-base", fmt.Sprint(seed), "-case", fmt.Sprint(idx), "-stall-s", fmt.Sprint(stallS))
 	ownGroup(cmd)
 	defer killGroup(cmd)
 	cmd.Env = env
@@ -767,9 +774,12 @@ func confirmHang(worker, prop, tier string, seed uint64, idx int, env []string, 
 	done := make(chan error, 1)
 	go func() { done <- cmd.Wait() }()
 	select {
-	case <-done:
+	case err := <-done:
+		if ee, ok := err.(*exec.ExitError); ok && ee.ExitCode() == 3 {
+			return true
+		}
 		return false
-	case <-time.After(time.Duration(stallS+5) * time.Second):
+	case <-time.After(time.Duration(20*stallS+60) * time.Second):
 		killGroup(cmd)
 		<-done
 		return true
